@@ -53,13 +53,17 @@ Definition st_equiv (a b : st) : bool :=
   && dict_equiv (d a) (d b) && seteq (s a) (s b)
   && opt_eqb Z.eqb (f a) (f b) && opt_eqb Z.eqb (m a) (m b) && Z.eqb (p a) (p b)
   && opt_eqb Z.eqb (c a) (c b) && Z.eqb (ad a) (ad b) && opt_eqb Z.eqb (y a) (y b) && Z.eqb (ad2 a) (ad2 b)
-  && Nat.eqb (oreg a) (oreg b) && list_eqb Z.eqb (zz a) (zz b) && Z.eqb (ade a) (ade b).
+  && Nat.eqb (oreg a) (oreg b) && list_eqb Z.eqb (zz a) (zz b) && Z.eqb (ade a) (ade b)
+  && opt_eqb Z.eqb (pv a) (pv b) && Z.eqb (dpv a) (dpv b).
 
 Definition is_opaque (o : op) : bool := match o with Opaque _ => true | _ => false end.
 (* operations that legitimately change the notifier lists *)
-Definition changes_reg (o : op) : bool := match o with ObsAdd | ObsRemove | AddZ => true | _ => false end.
-(* handlers 6 (observer with a user filter) and 7 (getter of the depends_on property) are outside the model *)
-Definition unmodelled_handler (pl : plan) : bool := match pl with FaultHandler j _ => Nat.leb 6 j | _ => false end.
+Definition changes_reg (o : op) : bool :=
+  match o with ObsAdd | ObsRemove | AddZ | SetPV _ | DelPV => true | _ => false end.
+(* handlers 6 (observer with a user filter), 7 (getter of the depends_on property) and 8 (validator of the
+   synchronised partner) are outside the model as far as the fired flag goes *)
+Definition unmodelled_handler (pl : plan) : bool :=
+  match pl with FaultHandler j _ => Nat.leb 6 j && Nat.leb j 8 | _ => false end.
 
 (* codes: 100*step + 1 outcome, 2 state of the faulted object, 3 handler log, 4 fired flag, 5 twin state,
    6 registrations (a modelled operation registers or removes nothing: the digest stays what it was).
